@@ -162,6 +162,13 @@ func findFunc(pkg *packages.Package, fc *FuncContract) (*FuncInfo, error) {
 }
 
 func (g *genPkg) signature(fi *FuncInfo) {
+	blankTP := false
+	defer func() {
+		if blankTP {
+			fi.ParamDecl = strings.ReplaceAll(fi.ParamDecl, "[_]", "[V]")
+			fi.ResultDecl = strings.ReplaceAll(fi.ResultDecl, "[_]", "[V]")
+		}
+	}()
 	sig := fi.Obj.Type().(*types.Signature)
 	var tps *types.TypeParamList
 	if sig.RecvTypeParams() != nil && sig.RecvTypeParams().Len() > 0 {
@@ -173,8 +180,13 @@ func (g *genPkg) signature(fi *FuncInfo) {
 		var a, b []string
 		for i := 0; i < tps.Len(); i++ {
 			tp := tps.At(i)
-			a = append(a, tp.Obj().Name()+" "+g.ts(tp.Constraint()))
-			b = append(b, tp.Obj().Name())
+			nm := tp.Obj().Name()
+			if nm == "_" {
+				nm = "V" // blank receiver type parameter: the contract calls it V
+				blankTP = true
+			}
+			a = append(a, nm+" "+g.ts(tp.Constraint()))
+			b = append(b, nm)
 		}
 		fi.TParams = "[" + strings.Join(a, ", ") + "]"
 		fi.TArgs = "[" + strings.Join(b, ", ") + "]"
